@@ -1,3 +1,5 @@
+_ENV = {"GOMAXPROCS": "2", "GOGC": "400"}  # allocation-heavy checks: fewer GC threads on the shared machine
+
 PROP = dict(
     level="exploration",
     technique="property-based testing (rapid): generated sets x encodings; round trip, independent official-format encoder as oracle, "
@@ -26,9 +28,9 @@ PROP = dict(
                  "decoding targets are fresh bitmaps or used bitmaps without an op writer"],
     tags=["groar", "gr2"],
     units=[
-        U("roundtrip", "./roaring", "^TestVerifC04_Roundtrip$", 1200, 60000),
-        U("official", "./roaring", "^TestVerifC04_(Calibration|Official)$", 1600, 80000),
-        U("import", "./roaring", "^TestVerifC04_Import$", 1600, 80000),
-        U("max", "./roaring", "^TestVerifC04_OfficialMax$", 8, 120, sq=2, sth=4),
+        U("roundtrip", "./roaring", "^TestVerifC04_Roundtrip$", 1200, 60000, env=_ENV),
+        U("official", "./roaring", "^TestVerifC04_(Calibration|Official)$", 1600, 80000, env=_ENV),
+        U("import", "./roaring", "^TestVerifC04_Import$", 1200, 60000, env=_ENV),
+        U("max", "./roaring", "^TestVerifC04_OfficialMax$", 8, 120, sq=2, sth=4, env=_ENV),
     ],
 )
